@@ -1,7 +1,7 @@
 (* C13 - send(), event methods and bound events are one and the same entry point.  Statements only. *)
 From Coq Require Import List Arith Bool.
 Import ListNotations.
-From PySM Require Import Impl.Engine Impl.History Proofs.EngineFrame Proofs.EngineProofs.
+From PySM Require Import Impl.Engine Impl.History Proofs.EngineFrame Proofs.EngineProofs Proofs.OrderProofs.
 
 Theorem C13_styles_interchangeable :
   forall st1 st2 beh rm fuel td c, enter st1 beh rm fuel td c = enter st2 beh rm fuel td c.
@@ -18,6 +18,23 @@ Theorem C13_allowed_events_exact :
   forall rm s e, In e (allowed_events rm s) <-> exists t, In t (outs rm s) /\ In e (rt_events t).
 Proof. exact allowed_events_iff. Qed.
 Print Assumptions C13_allowed_events_exact.
+
+(* ... in declaration order: cut the sequence of (transition, event) declarations leaving the state
+   anywhere; the events of the first part are listed first (as the first part alone would list them),
+   followed by exactly the events that occur in the second part only *)
+Theorem C13_allowed_events_in_declaration_order :
+  forall rm s l1 l2, flat_map rt_events (outs rm s) = l1 ++ l2 ->
+    exists rest, allowed_events rm s = uniq [] l1 ++ rest
+                 /\ forall e, In e rest <-> In e l2 /\ ~ In e l1.
+Proof. exact allowed_events_in_declaration_order. Qed.
+Print Assumptions C13_allowed_events_in_declaration_order.
+
+Theorem C13_earlier_declared_event_listed_first :
+  forall rm s l1 l2 e1 e2,
+    flat_map rt_events (outs rm s) = l1 ++ l2 -> In e1 l1 -> In e2 l2 -> ~ In e2 l1 ->
+    exists a b c, allowed_events rm s = a ++ e1 :: b ++ e2 :: c.
+Proof. exact earlier_declared_event_listed_first. Qed.
+Print Assumptions C13_earlier_declared_event_listed_first.
 
 (* a name bound to no transition leaving the current state - in particular every name that is not a
    declared event, such as an attribute of the machine - is an unknown event: TransitionNotAllowed
